@@ -317,7 +317,8 @@ def oracle(raw, ann, res):
         elif op == "restart":
             if out != "ok":
                 down = True
-                fails.append(("c02-restart-refused", i, "clean restart refused: %s" % out))
+                if int(f.get("io", "0")) == 0:       # a restart that hit an injected fault may fail
+                    fails.append(("c02-restart-refused", i, "clean restart refused: %s" % out))
         elif op == "sweep":
             fails += sweep_oracle(i, f, r)
         elif op == "census":
